@@ -132,6 +132,22 @@ def run(ctx: Check, tree: Tree) -> None:
         else:
             if f"self.{f}" not in unparse(val):
                 problems.append(f"built from `{unparse(val)[:40]}`, not from self.{f}")
+            # a helper that rebuilds the mapping: it must keep every entry and apply the mapping to each
+            if isinstance(val, ast.Call):
+                helper = tree.funcs.get(tree.callee(val, fn) or "")
+                if helper is not None and helper.qual.startswith("ampform"):
+                    comps = [n for n in walk_function(helper.node) if isinstance(n, (ast.DictComp, ast.ListComp, ast.GeneratorExp))]
+                    rets_h = [r for r in walk_function(helper.node, nested=False) if isinstance(r, ast.Return) and r.value is not None]
+                    if not comps or len(rets_h) != 1:
+                        problems.append(f"helper {helper.name}: shape outside grammar")
+                    for comp in comps:
+                        if any(g.ifs for g in comp.generators):
+                            problems.append(f"helper {helper.name} filters the entries (`if {unparse(comp.generators[0].ifs[0])}`): entries without that property are dropped from the renamed model")
+                    if any(isinstance(n, (ast.Continue, ast.Break)) for n in walk_function(helper.node)) or any(isinstance(n, ast.If) for n in walk_function(helper.node)):
+                        problems.append(f"helper {helper.name} treats entries conditionally")
+                    htxt = unparse(helper.node)
+                    if ".xreplace(" not in htxt:
+                        problems.append(f"helper {helper.name} does not apply the mapping with xreplace")
         ctx.verdict(not problems, "R-FIELDS", key, tree.loc(val), f"HelicityModel.{f} := {unparse(val)[:70]}", problems or None)
     extra = set(kws) - set(fields)
     if extra:
@@ -166,10 +182,13 @@ def run(ctx: Check, tree: Tree) -> None:
         "expression free symbols": "self.expression.free_symbols" in txt,
         "kinematic-variable keys": "set(self.kinematic_variables)" in txt or "self.kinematic_variables.keys()" in txt or "symbols.update(self.kinematic_variables)" in txt,
         "kinematic-variable values' free symbols": "self.kinematic_variables.values()" in txt and txt.count("free_symbols") >= 2,
+        # a parameter that does not occur in the expression (the mass of a stable final state, a scalar
+        # initial-state mass) is still an attribute of the model: "every attribute equals the original with the map applied"
+        "parameter keys": "set(self.parameter_defaults)" in txt or "self.parameter_defaults.keys()" in txt or "symbols.update(self.parameter_defaults)" in txt or "*self.parameter_defaults" in txt,
     }
     missing = [k for k, v in sources.items() if not v]
     ctx.verdict(not missing, "R-UNIVERSE", f"{cs.qual}::sources", tree.loc(cs.node),
-                "__collect_symbols = expression.free_symbols | kinematic-variable keys | free symbols of their values", missing or None)
+                "__collect_symbols = expression.free_symbols | kinematic-variable keys | free symbols of their values | parameter keys", missing or None)
 
     # ---- R-PURE
     bad = []
